@@ -154,7 +154,8 @@ def shadowSegs (tmp : Bool) (v : Var) : List Str :=
       semi ["xt".toList, words (traceArg x)],
       semi ["xs".toList, stmt "zzt".toList (setLine "zzt".toList x)],
       (let t := aliasP "zzal".toList x; semi ["al".toList, esc t, readAlias t]),
-      (let t := trapP x "SIGUSR1".toList; semi ["tr".toList, esc t, readTrap t]) ] ++
+      (let t := trapP x "SIGUSR1".toList; semi ["tr".toList, esc t, readTrap t]),
+      semi ["nr".toList, esc (declareP ['n'] "zzNR".toList n), "UNSUP".toList] ] ++
     (if tmp then [] else [semi ["lp".toList, stmt n (declareP v.attrs n x)]])
   else
     let kvs := withIdx v.vals
